@@ -7,7 +7,7 @@ VERIF = os.path.dirname(os.path.dirname(os.path.abspath(__file__)))
 m = json.load(open(os.path.join(VERIF, "seeded", "MATRIX.json")))
 rows = []
 for name, r in sorted(m.items()):
-    if name.startswith(("ref-", "ok-")):
+    if name.startswith(("ref-", "ok-", "ok2-")):
         continue
     meta = json.load(open(os.path.join(VERIF, "seeded", name, "meta.json")))
     own = meta.get("properties") or [meta.get("property")]
@@ -29,8 +29,8 @@ checks that were run and stayed silent (exit 0) or inconclusive (exit 2).
 |---|---|---|---|---|---|---|
 """ + "\n".join(rows) + "\n"
 open(os.path.join(VERIF, "seeded", "README.md"), "w").write(txt)
-refs = {n: r for n, r in m.items() if n.startswith(("ref-", "ok-"))}
-m = {n: r for n, r in m.items() if not n.startswith(("ref-", "ok-"))}
+refs = {n: r for n, r in m.items() if n.startswith(("ref-", "ok-", "ok2-"))}
+m = {n: r for n, r in m.items() if not n.startswith(("ref-", "ok-", "ok2-"))}
 print(len(refs), "refactorings and allowed changes;", sum(1 for r in refs.values() if r["caught_by"]), "raised an alarm")
 own_missed = [n for n, r in m.items() if not (set((json.load(open(os.path.join(VERIF, 'seeded', n, 'meta.json'))).get('properties') or [r['property']])) & set(r['caught_by']))]
 print(len(m), "seeds;", sum(1 for r in m.values() if r["caught_by"]), "caught; own property did not catch:", own_missed)
